@@ -53,7 +53,10 @@ def run(ctx):
         e["op"] = "len"
         ctx.count_case((c["ty"], repr(c["val"])), len(e["b"]) > 0)
     small, msgs = c02.pool(ctx, quick)
-    lcases = c02.run_legalenc(ctx, small, msgs, (1, 1, 1, 2, 2) if quick else (2, 1, 2, 3, 3), True)
+    lcases = c02.run_legalenc(ctx, small, msgs, (1, 1, 1, 2, 2) if quick else (2, 1, 2, 3, 2), True, 1500 if quick else 6000)
+    if len(lcases) > (60000 if quick else 400000):          # (a seeded sample of the exported encodings is replayed)
+        ctx.rnd.shuffle(lcases)
+        lcases = lcases[:60000 if quick else 400000]
     ev2 = ctx.pmap(parsed_len_event, lcases)
     for e in ev2:
         ctx.count_case(("parsed", bytes(e["case"]["src"])), len(e["b"]) > 0)
